@@ -20,6 +20,18 @@ CHECKS = {
  "C06": ("fault_enumeration", "6/C06",
   "For each seeded sample ciphertext (4 configurations) every single-bit flip, every truncation, extensions, C1 substitutions (other points, every prefix byte, off-curve, zero, p, non-residue) and crafted victim-consistent invalid-curve / coordinate>=p ciphertexts are delivered to the library's decrypt; it must answer Ok or Err and may return a plaintext only where the strict reference decryptor returns the same one.",
   "deterministic simulation: transport-fault enumeration incl. adversarially crafted ciphertexts, reference decryptor as judge"),
+ "C09": ("fault_enumeration", "6/C09",
+  "SM9 signature sessions with KGC/signer/verifier played by the library or the reference (r scripted through the RNG seam: exact (h,S) comparison with GM/T 0044.2 and the Annex A example; reference-made signatures must verify), then per seeded sample the fault menu on (h,S), message, identity and master public key is enumerated and delivered to verify_sign, which must answer Ok or Err and Ok only where the strict reference verifier accepts.",
+  "deterministic simulation: multi-party sessions with reference peers, scripted r via RNG seam, transport-fault enumeration judged by the reference verifier"),
+ "C10": ("fault_enumeration", "6/C10",
+  "SM9 encryption sessions covering every length 1..=255 with library or reference encryptor (r scripted: exact ciphertext comparison with GM/T 0044.4, Annex A example, scripted r with K1 = 0 forcing the retry branch), then per seeded sample every bit flip, truncation, extension, identity change, C1 substitution and crafted victim-consistent off-curve C1 is delivered to decrypt, which must answer Ok or Err and return a plaintext only where the strict reference decryptor returns the same one.",
+  "deterministic simulation: multi-party sessions with reference peers, scripted r via RNG seam, transport-fault enumeration incl. adversarially crafted ciphertexts"),
+ "C15": ("fault_enumeration", "6/C15",
+  "The four-message SM2 key agreement between parties played by the library or the reference: honest runs with scripted ephemeral scalars (R, S_B, S_A, K compared exactly with GB/T 32918.3 incl. the Annex A example; mixed pairs must complete), then all 16 subsets of the four messages x 3 tamper kinds plus faults on the responder's stored R_A per sample; each library step is judged by the reference party in the same position on the same delivered bytes.",
+  "deterministic simulation: two-party protocol histories, scripted ephemeral scalars, tamper-subset enumeration against a reference party"),
+ "C17": ("fault_enumeration", "6/C17",
+  "SM9 key exchange between initiator and responder played by the library or the reference (scripted r_A, r_B: R_A and SK compared exactly with GM/T 0044.3 incl. the Annex A SK; mixed pairs agree), then per seeded sample faults on R_A / R_B in transit (bit flips, other valid point, zero, off-curve, p): an invalid point must be refused and a modified one must make the keys differ.",
+  "deterministic simulation: two-party protocol histories, scripted ephemeral scalars, transport-fault enumeration"),
  "C08": ("exploration", "6/C08",
   "Request histories on stateful ZUC generators: every composition of totals 1..=12 (and each with a zero-length request at every position) for four (key, iv) pairs exhaustively, plus seeded runs of 1-4 interleaved generators with per-run request-size laws and streams up to 2^16 (quick) / 2^20 (thorough) words, each request compared with the reference keystream vector at that generator's cursor.",
   "deterministic simulation: seeded and exhaustive small request histories on stateful objects against a whole-vector reference model"),
